@@ -87,6 +87,8 @@ def make_env_class():
             big = 1e6
             if kind == "box":
                 self.observation_space = spaces.Box(-big, big, (2,), dtype=np.float32)
+            elif kind == "image":       # an image space (uint8, 0..255, channel-last): VecNormalize replaces the observation space
+                self.observation_space = spaces.Box(0, 255, (1, 1, 3), dtype=np.uint8)
             else:
                 d = {"a": spaces.Box(-big, big, (2,), dtype=np.float32), "b": spaces.Box(-big, big, (1,), dtype=np.float32)}
                 if kind == "dict_mixed":
@@ -96,7 +98,12 @@ def make_env_class():
             self.n_resets = self.n_steps = 0
             self.log = []
 
+        def _pix(self, vec):
+            return [int(abs(v) * 8) % 256 for v in vec[:3]]
+
         def _obs(self, vec):
+            if self.kind == "image":
+                return np.array(self._pix(vec), dtype=np.uint8).reshape(1, 1, 3)
             f = np.array(vec, dtype=np.float32)
             if self.kind == "box":
                 return f[:2].copy()
@@ -108,13 +115,13 @@ def make_env_class():
         def reset(self, *, seed=None, options=None):
             vec = self.script["resets"][self.n_resets % len(self.script["resets"])]
             self.n_resets += 1
-            self.log.append(("reset", vec))
+            self.log.append(("reset", [float(x) for x in self._pix(vec)] if self.kind == "image" else vec))
             return self._obs(vec), {}
 
         def step(self, action):
             vec, r, term, trunc = self.script["steps"][self.n_steps % len(self.script["steps"])]
             self.n_steps += 1
-            self.log.append(("step", vec, r, term, trunc))
+            self.log.append(("step", [float(x) for x in self._pix(vec)] if self.kind == "image" else vec, r, term, trunc))
             return self._obs(vec), float(r), bool(term), bool(trunc), {}
 
     return ArrEnv
@@ -153,7 +160,7 @@ def gen_case(rng, i):
         main = xs if not others else xs[:n_main]
         return {"kind": "rms", "xs": xs, "split_a": split(main), "split_b": split(main),
                 "others": [split(o) for o in others], "id": i}
-    kind = rng.choice(["box", "dict_box", "dict_mixed"])
+    kind = rng.choice(["box", "dict_box", "dict_mixed", "box", "dict_box", "dict_mixed", "image"])
     n_envs = rng.randint(1, 4)
     # float32 batch moments (np.mean / np.var of the float32 observation batch) are exact on the grids when n_envs is a
     # power of two: those histories are compared at 1e-9, the others at 1e-5
@@ -207,6 +214,11 @@ def run_rms(case):
                 r2.update(np.array(b, dtype=np.float64))
             r.combine(r2)
         out[name] = {"mean": [float(x) for x in r.mean], "var": [float(x) for x in r.var], "count": float(r.count)}
+        # copy(): equal and independent
+        c = r.copy()
+        same = np.array_equal(c.mean, r.mean) and np.array_equal(c.var, r.var) and c.count == r.count and not np.shares_memory(c.mean, r.mean) and not np.shares_memory(c.var, r.var)
+        c.update(np.array([[100.0, 100.0]]))
+        out[name]["copy_ok"] = bool(same and [float(x) for x in r.mean] == out[name]["mean"] and float(r.count) == out[name]["count"] and c.count != r.count)
     return out
 
 
@@ -238,6 +250,8 @@ def close(a, b, rel=1e-9, ab=1e-9):
 
 def compare_rms(case, impl, mv):
     probs = []
+    if not all(impl[nm].get("copy_ok", True) for nm in ("split_a", "split_b")):
+        probs.append(("oracle-rms-copy", "RunningMeanStd.copy() is not an equal, independent copy"))
     n_main = sum(len(b) for b in case["split_a"])
     for comp in range(2):
         groups = [[x[comp] for x in case["xs"][:n_main]]]
@@ -265,14 +279,16 @@ def compare_rms(case, impl, mv):
 
 def _flat(kind, obs, i, np):
     """channel values (a0, a1, b0) of sub-environment i from a (possibly dict) batch"""
-    if kind == "box":
-        return [float(x) for x in obs[i]]
+    if kind in ("box", "image"):
+        return [float(x) for x in np.ravel(obs[i])]
     return [float(x) for x in obs["a"][i]] + [float(x) for x in obs["b"][i]]
 
 
 def _flat_one(kind, obs):
-    if kind == "box":
-        return [float(x) for x in obs]
+    if kind in ("box", "image"):
+        import numpy as np
+
+        return [float(x) for x in np.ravel(obs)]
     return [float(x) for x in obs["a"]] + [float(x) for x in obs["b"]]
 
 
@@ -297,7 +313,7 @@ def run_late_norm_obs(case):
     ArrEnv = make_env_class()
     kind = case["obs_kind"]
     venv = DummyVecEnv([(lambda sc=sc: ArrEnv(kind, sc)) for sc in case["scripts"]])
-    kw = {} if kind == "box" else {"norm_obs_keys": case["norm_obs_keys"]}
+    kw = {} if kind in ("box", "image") else {"norm_obs_keys": case["norm_obs_keys"]}
     vn = VecNormalize(venv, training=case["training"], norm_obs=False, norm_reward=case["norm_reward"], **kw)
     for k, op in enumerate(case["ops"]):
         try:
@@ -329,11 +345,15 @@ def run_vecnorm(case):
 
     n = len(case["scripts"])
     venv = DummyVecEnv([mk(sc) for sc in case["scripts"]])
-    kw = {} if kind == "box" else {"norm_obs_keys": case["norm_obs_keys"]}
+    kw = {} if kind in ("box", "image") else {"norm_obs_keys": case["norm_obs_keys"]}
     vn = VecNormalize(venv, training=case["training"], norm_obs=case["norm_obs"], norm_reward=case["norm_reward"], clip_obs=case["clip_obs"],
                       clip_reward=case["clip_reward"], gamma=case["gamma"], epsilon=case["epsilon"], **kw)
+    want_space = venv.observation_space
+    if kind == "image" and case["norm_obs"]:
+        want_space = spaces.Box(-case["clip_obs"], case["clip_obs"], (1, 1, 3), dtype=np.float32)
+    space_ok = vn.observation_space == want_space
     nchan = 2 if kind == "box" else 3
-    keys_of_chan = [None, None] if kind == "box" else ["a", "a", "b"]
+    keys_of_chan = [None, None] if kind == "box" else [None] * 3 if kind == "image" else ["a", "a", "b"]
 
     def stats():
         out = []
@@ -344,8 +364,8 @@ def run_vecnorm(case):
             rms = getattr(vn, "obs_rms", None)
             if rms is None:
                 out.append(None)
-            elif kind == "box":
-                out.append([float(rms.mean[ch]), float(rms.var[ch]), float(rms.count)])
+            elif kind in ("box", "image"):
+                out.append([float(np.ravel(rms.mean)[ch]), float(np.ravel(rms.var)[ch]), float(rms.count)])
             else:
                 key = keys_of_chan[ch]
                 if key not in rms:
@@ -364,12 +384,14 @@ def run_vecnorm(case):
         elif op[0] == "reset":
             obs = vn.reset()
             ev["out_obs"] = [_flat(kind, obs, i, np) for i in range(n)]
-            ev["out_dtype_ok"] = all(np.asarray(v).dtype == np.float32 for v in ([obs] if kind == "box" else [obs["a"], obs["b"]]))
+            want_dt = np.uint8 if (kind == "image" and not vn.norm_obs) else np.float32   # an image that is not normalised is passed through as it is
+            ev["out_dtype_ok"] = all(np.asarray(v).dtype == want_dt for v in ([obs] if kind in ("box", "image") else [obs["a"], obs["b"]]))
             ev["d_pass"] = None if kind != "dict_mixed" else [int(x) for x in obs["d"]]
         else:
             obs, rews, dones, infos = vn.step(np.zeros(n, dtype=np.int64))
             ev["out_obs"] = [_flat(kind, obs, i, np) for i in range(n)]
-            ev["out_dtype_ok"] = all(np.asarray(v).dtype == np.float32 for v in ([obs] if kind == "box" else [obs["a"], obs["b"]])) and rews.dtype == np.float32
+            want_dt = np.uint8 if (kind == "image" and not vn.norm_obs) else np.float32
+            ev["out_dtype_ok"] = all(np.asarray(v).dtype == want_dt for v in ([obs] if kind in ("box", "image") else [obs["a"], obs["b"]])) and rews.dtype == np.float32
             ev["out_rews"] = [float(x) for x in rews]
             ev["dones"] = [bool(x) for x in dones]
             ev["out_term"] = [(_flat_one(kind, inf["terminal_observation"]) if "terminal_observation" in inf else None) for inf in infos]
@@ -425,6 +447,19 @@ def run_vecnorm(case):
                     "norm_obs": w.norm_obs, "norm_reward": w.norm_reward, "norm_obs_keys": w.norm_obs_keys,
                     "old_reward": [float(x) for x in w.old_reward]}
 
+        try:   # a loaded wrapper already has its venv
+            loaded.set_venv(venv2)
+            second_set_venv_raises = False
+        except ValueError:
+            second_set_venv_raises = True
+        legacy_keys_ok = True
+        if kind in ("dict_box", "dict_mixed") and hasattr(vn, "obs_rms"):
+            # a pickle written before norm_obs_keys existed: __setstate__ normalises every key
+            st = vn.__getstate__()
+            st.pop("norm_obs_keys")
+            old = VecNormalize.__new__(VecNormalize)
+            old.__setstate__(st)
+            legacy_keys_ok = old.norm_obs_keys == list(vn.observation_space.spaces.keys()) and old.venv is None
         f0, f1 = fields(vn), fields(loaded)
         loaded_returns = [float(x) for x in loaded.returns]
         other = VecNormalize(DummyVecEnv([mk(sc) for sc in case["scripts"]]), norm_obs=True, **kw)
@@ -438,7 +473,7 @@ def run_vecnorm(case):
         shares = shares or other.ret_rms is vn.ret_rms
     finally:
         shutil.rmtree(d, ignore_errors=True)
-    return {"events": events, "saved": f0, "loaded": f1, "loaded_returns": loaded_returns, "synced": f2, "sync_shares_memory": bool(shares),
+    return {"events": events, "space_ok": bool(space_ok), "second_set_venv_raises": second_set_venv_raises, "legacy_keys_ok": bool(legacy_keys_ok), "saved": f0, "loaded": f1, "loaded_returns": loaded_returns, "synced": f2, "sync_shares_memory": bool(shares),
             "chan_norm": chan_flags(case)}
 
 
@@ -446,6 +481,8 @@ def chan_flags(case):
     kind = case["obs_kind"]
     if kind == "box":
         return [True, True]
+    if kind == "image":
+        return [True, True, True]
     keys = case["norm_obs_keys"]
     if keys is None:
         keys = ["a", "b"]
@@ -453,6 +490,8 @@ def chan_flags(case):
 
 
 def obs_tol(case):
+    if case.get("obs_kind") == "image":
+        return 1e-9            # uint8 batches: np.mean / np.var work in float64
     exact = case.get("mode") in ("grid", "offset_grid") and len(case["scripts"]) in (1, 2, 4)
     return 1e-9 if exact else 1e-5
 
@@ -495,8 +534,10 @@ def chan_stats(fields, kind, nchan):
     o = fields["obs_rms"]
     if o is None:
         return [None] * nchan
-    if kind == "box":
-        return [[o[0][ch], o[1][ch], o[2]] for ch in range(nchan)]
+    if kind in ("box", "image"):
+        import numpy as np
+
+        return [[float(np.ravel(o[0])[ch]), float(np.ravel(o[1])[ch]), o[2]] for ch in range(nchan)]
     out = []
     for ch, key in enumerate(["a", "a", "b"][:nchan]):
         if key not in o:
@@ -643,6 +684,12 @@ def compare_vecnorm(case, impl, mv):
             probs.append(("oracle-returns-accumulator", f"op {k}: impl returns {ev['returns']}, discounted sums since the last episode end {[float(x) for x in rets]}"))
         if probs:
             break
+    if not impl.get("space_ok", True):
+        probs.append(("oracle-observation-space", "observation_space of the wrapper: an image space must become Box(-clip_obs, clip_obs, float32) when norm_obs, anything else stay as it is"))
+    if not impl.get("second_set_venv_raises", True):
+        probs.append(("oracle-set-venv-twice", "set_venv on a wrapper that already has a venv did not raise ValueError"))
+    if not impl.get("legacy_keys_ok", True):
+        probs.append(("oracle-legacy-pickle-norm-obs-keys", "a pickle without norm_obs_keys did not come back with all keys of the Dict space"))
     # ---- save/load, sync
     if impl["saved"] != impl["loaded"]:
         diff = [k for k in impl["saved"] if impl["saved"][k] != impl["loaded"][k]]
@@ -672,13 +719,48 @@ def compare_vecnorm(case, impl, mv):
     return probs
 
 
-RUN = {"rms": run_rms, "vecnorm": run_vecnorm}
-EXPRS = {"rms": exprs_rms, "vecnorm": exprs_vecnorm}
-COMPARE = {"rms": compare_rms, "vecnorm": compare_vecnorm}
+def run_ctor(case):
+    """constructions and calls that must be refused (documented errors)"""
+    gym, np, spaces, RunningMeanStd, DummyVecEnv, VecNormalize, sync_envs_normalization = _imports()
+    ArrEnv = make_env_class()
+    sc = {"resets": [[0.5, 1.0, 0.0]], "steps": [[[1.0, 2.0, 0.0], 1.0, False, False]]}
+
+    class DiscEnv(gym.Env):
+        observation_space, action_space = spaces.Discrete(3), spaces.Discrete(2)
+
+        def reset(self, *, seed=None, options=None):
+            return 0, {}
+
+        def step(self, a):
+            return 0, 0.0, False, False, {}
+
+    def raises(f, exc):
+        try:
+            f()
+            return False
+        except exc:
+            return True
+
+    mk = lambda kind: DummyVecEnv([lambda: ArrEnv(kind, sc)])  # noqa: E731
+    plain = VecNormalize(mk("box"))
+    out = {
+        "dict with a Discrete key and norm_obs_keys=None": raises(lambda: VecNormalize(mk("dict_mixed")), ValueError),
+        "norm_obs_keys on a Box space": raises(lambda: VecNormalize(mk("box"), norm_obs_keys=["a"]), ValueError),
+        "Discrete observation space": raises(lambda: VecNormalize(DummyVecEnv([DiscEnv])), ValueError),
+        "Discrete observation space is fine with norm_obs=False": not raises(lambda: VecNormalize(DummyVecEnv([DiscEnv]), norm_obs=False), Exception),
+        "sync with an eval env that is not wrapped": raises(lambda: sync_envs_normalization(plain, mk("box")), AssertionError),
+    }
+    return {"ctor": out}
+
+
+RUN = {"rms": run_rms, "vecnorm": run_vecnorm, "ctor": run_ctor}
+EXPRS = {"rms": exprs_rms, "vecnorm": exprs_vecnorm, "ctor": lambda c, im: ["true"]}
+COMPARE = {"rms": compare_rms, "vecnorm": compare_vecnorm,
+           "ctor": lambda c, im, mv: [("oracle-documented-error-not-raised", k) for k, ok in im["ctor"].items() if not ok]}
 
 
 def nontrivial(case, impl):
-    if "late_norm_obs" in impl or "raised" in impl:
+    if "late_norm_obs" in impl or "raised" in impl or "ctor" in impl:
         return False
     if case["kind"] == "rms":
         return len(case["split_a"]) >= 2 and case["split_a"] != case["split_b"]
@@ -732,8 +814,10 @@ def main():
             "clip_obs": {}, "gamma": {}, "epsilon": {}}
     reported = set()
     for c, im, probs in zip(cases, impls, results):
-        hist[c["kind"]] += 1
-        if c["kind"] == "rms":
+        hist[c["kind"]] = hist.get(c["kind"], 0) + 1
+        if c["kind"] == "ctor":
+            pass
+        elif c["kind"] == "rms":
             hist["rms_with_combine"] += int(bool(c["others"]))
         else:
             for key, val in (("obs_kind", c["obs_kind"]), ("n_envs", len(c["scripts"])), ("norm_obs_keys", json.dumps(c["norm_obs_keys"])),
